@@ -232,8 +232,20 @@ class CBloomDriver:
             ctx.op("remove", ki, n)
         self.verify(f"after {op}")
 
+    def _skip_this_verify(self, force=False):
+        """look-ups after EVERY step would refresh whatever the structure remembers from its last query before the next update can
+        trip over it: with case["verify_mask"] the comparison with the model runs only at some steps (always at the end)"""
+        vm = self.case.get("verify_mask", 0)
+        self.nv = getattr(self, "nv", -1) + 1
+        if vm and not force and not getattr(self, "_final", False) and not (vm >> (self.nv % 8)) & 1:
+            self.feats.add("steps_without_queries")
+            return True
+        return False
+
     def verify(self, what):
         ctx, o = self.ctx, self.obj
+        if self._skip_this_verify():
+            return
         lo = self._o("lower")
         if lo:
             for k in self.pool:
@@ -265,6 +277,8 @@ class CBloomDriver:
         self.verify("fresh")
         for op in self.case["ops"]:
             self.step(op)
+        self._final = True
+        self.verify("at the end of the history")
         for f in self.feats:
             self.ctx.feat("cb_" + f)
         self.ctx.feat("cb_hash_" + self.case["hash"])
@@ -291,6 +305,7 @@ def case_strategy(tier, max_ops=40):
                        st.tuples(st.just("reload"), st.integers(0, 2)))
         return {"t": "cbloom", "est": est, "fpr": fpr, "hash": draw(gen.hash_name_st()), "pool": draw(gen.pool_st(2, 8)),
                 "ops": [list(o) for o in draw(st.lists(op, min_size=3, max_size=max_ops))],
-                "alt_mode": draw(st.sampled_from(["", "", "scratch", "shared"]))}
+                "alt_mode": draw(st.sampled_from(["", "", "scratch", "shared"])),
+                "verify_mask": draw(st.one_of(st.just(0), st.just(0), st.integers(1, 255)))}
 
     return case()
